@@ -2470,22 +2470,48 @@ class Trimesh(Geometry3D):
                 matrix,
             )[0]
 
+        # does the linear part preserve angles, i.e. is it a rotation,
+        # reflection, uniform scale or a combination of those
+        gram = np.dot(matrix[:3, :3].T, matrix[:3, :3])
+        conformal = util.allclose(
+            gram, _IDENTITY3 * (gram.trace() / 3.0), atol=1e-8 * gram.trace()
+        )
+
         # preserve face normals if we have them stored
         if has_rotation and "face_normals" in self._cache:
-            # transform face normals by rotation component
-            self._cache.cache["face_normals"] = util.unitize(
-                transformations.transform_points(
-                    self.face_normals, matrix=matrix, translate=False
+            if conformal:
+                # transform face normals by rotation component
+                normal_matrix = matrix
+            else:
+                # under anisotropic scale or shear
+                # normals transform by the inverse transpose
+                try:
+                    normal_matrix = np.eye(4)
+                    normal_matrix[:3, :3] = np.linalg.inv(matrix[:3, :3]).T
+                except np.linalg.LinAlgError:
+                    normal_matrix = None
+            if normal_matrix is None:
+                # a singular transform flattens the mesh
+                self._cache.delete("face_normals")
+            else:
+                self._cache.cache["face_normals"] = util.unitize(
+                    transformations.transform_points(
+                        self.face_normals, matrix=normal_matrix, translate=False
+                    )
                 )
-            )
 
         # preserve vertex normals if we have them stored
         if has_rotation and "vertex_normals" in self._cache:
-            self._cache.cache["vertex_normals"] = util.unitize(
-                transformations.transform_points(
-                    self.vertex_normals, matrix=matrix, translate=False
+            if conformal:
+                self._cache.cache["vertex_normals"] = util.unitize(
+                    transformations.transform_points(
+                        self.vertex_normals, matrix=matrix, translate=False
+                    )
                 )
-            )
+            else:
+                # vertex normals are weighted by face angles which
+                # change under anisotropic scale or shear: recompute
+                self._cache.delete("vertex_normals")
 
         # if transformation flips winding of triangles
         if has_rotation and transformations.flips_winding(matrix):
